@@ -276,7 +276,7 @@ def typestate(depth=3):
     pulses = [Pulse.ConstantPulse(16, 1.0, 0.0, 0.0),
               Pulse.ConstantAmplitude(0, ConstantWaveform(16, -5.0), 0.0),
               Pulse.ConstantAmplitude(0, ConstantWaveform(16, -18.0), 0.0)]
-    setpoints = [(1.0, 0.0, 0.0)]
+    setpoints = [(1.0, 0.0, 0.0), (20.0, 0.0, 0.0)]      # the second one is above the channel's max_amp
     P = "min-delay"
     calls = [
         {"op": "declare", "nm": 1, "cid": 1, "it": 0},
@@ -286,6 +286,7 @@ def typestate(depth=3):
         {"op": "declare", "nm": 4, "cid": 1, "it": 0},      # id used twice
         {"op": "declare", "nm": 1, "cid": 2, "it": 4},      # name used twice / unknown qubit
         {"op": "declare", "nm": 5, "cid": 9, "it": 0},      # unknown id
+        {"op": "declare", "nm": 6, "cid": 3, "it": 0},      # the Microwave id under a second name
         {"op": "target", "nm": 2, "tg": 2},
         {"op": "target", "nm": 1, "tg": 1},                 # global channel
         {"op": "add", "nm": 1, "p": 1, "proto": P},
@@ -311,6 +312,8 @@ def typestate(depth=3):
         {"op": "magfield", "zero": True},
         {"op": "align", "nms": [1, 2], "rest": True},
         {"op": "eom_on", "nm": 1, "sp": 1, "cpd": False},
+        {"op": "eom_on", "nm": 1, "sp": 2, "cpd": False},       # rejected setpoint
+        {"op": "eom_mod", "nm": 1, "sp": 2, "cpd": False},      # rejected setpoint while in EOM mode
         {"op": "eom_add", "nm": 1, "dur": 16, "ph": 0, "pps": 0, "proto": P, "cpd": False},
         {"op": "eom_off", "nm": 1, "cpd": False},
         {"op": "est", "nm": 1, "p": 1, "proto": P},
